@@ -1073,34 +1073,21 @@ func (p *Proof) undoAdd(numAdds, numLeaves uint64, cachedHashes []Hash, toDestro
 	prevForestRows := TreeRows(numLeaves - numAdds)
 
 	// Move positions to their previous positions before the empty roots were destroyed.
-	for _, destroyed := range toDestroy {
-		for i, target := range targetsWithHash.positions {
-			if destroyed <= target {
-				continue
-			}
+	// When an empty root was written over, the subtree that was being added moved up
+	// into the position of the parent of that root. Everything at or below that parent
+	// goes back down. The roots were destroyed one after another so they're put back in
+	// the reverse order.
+	for d := len(toDestroy) - 1; d >= 0; d-- {
+		destroyed := toDestroy[d]
+		parent := Parent(destroyed, forestRows)
 
-			// If these positions are in different subtrees, continue.
-			subtree, _, _, _ := DetectOffset(target, numLeaves)
-			subtree1, _, _, _ := DetectOffset(destroyed, numLeaves-numAdds)
-			if subtree != subtree1 {
-				continue
-			}
-			if isAncestor(Parent(destroyed, forestRows), target, forestRows) {
+		for i, target := range targetsWithHash.positions {
+			if target == parent || isAncestor(parent, target, forestRows) {
 				targetsWithHash.positions[i] = calcPrevPosition(target, destroyed, forestRows)
 			}
 		}
-
 		for i, target := range proofWithPos.positions {
-			if destroyed <= target {
-				continue
-			}
-			// If these positions are in different subtrees, continue.
-			subtree, _, _, _ := DetectOffset(target, numLeaves)
-			subtree1, _, _, _ := DetectOffset(destroyed, numLeaves-numAdds)
-			if subtree != subtree1 {
-				continue
-			}
-			if isAncestor(Parent(destroyed, forestRows), target, forestRows) {
+			if target == parent || isAncestor(parent, target, forestRows) {
 				proofWithPos.positions[i] = calcPrevPosition(target, destroyed, forestRows)
 			}
 		}
@@ -1122,21 +1109,17 @@ func (p *Proof) undoAdd(numAdds, numLeaves uint64, cachedHashes []Hash, toDestro
 		for _, destroyed := range toDestroy {
 			for i := 0; i < proofWithPos.Len(); i++ {
 				target := proofWithPos.positions[i]
-				// If these positions are in different subtrees, continue.
-				subtree, _, _, _ := DetectOffset(destroyed, numLeaves)
-				subtree1, _, _, _ := DetectOffset(target, numLeaves)
-				if subtree == subtree1 || target == destroyed {
+				if isAncestor(destroyed, target, forestRows) || target == destroyed {
 					proofWithPos.Delete(i)
+					i--
 				}
 			}
 
 			for i := 0; i < targetsWithHash.Len(); i++ {
 				target := targetsWithHash.positions[i]
-				// If these positions are in different subtrees, continue.
-				subtree, _, _, _ := DetectOffset(destroyed, numLeaves)
-				subtree1, _, _, _ := DetectOffset(target, numLeaves)
-				if subtree == subtree1 || target == destroyed {
+				if isAncestor(destroyed, target, forestRows) || target == destroyed {
 					targetsWithHash.Delete(i)
+					i--
 				}
 			}
 		}
